@@ -8,13 +8,19 @@ import (
 
 	"pgregory.net/rapid"
 
+	"verif/internal/fw"
 	"verif/internal/val"
 )
 
 type Val = val.Val
 
 func pick[T any](t *rapid.T, label string, xs []T) T {
-	return xs[rapid.IntRange(0, len(xs)-1).Draw(t, label)]
+	return fw.PickU(t, label, xs)
+}
+
+// kind draws a fair integer in [0, n] (rapid's own integer draws favour small values).
+func kind(t *rapid.T, label string, n int) int {
+	return fw.Uniform(t, label, n+1)
 }
 
 var pads = []string{"", "", "", " ", "  ", "\t", " \t", "\n"}
@@ -28,7 +34,7 @@ var intPool = []int64{0, 1, -1, 2, -2, 3, 5, 7, 10, 100, -100, 255, 1 << 31, -(1
 
 // Int draws an integer with boundary values over-represented.
 func Int(t *rapid.T) int64 {
-	switch rapid.IntRange(0, 9).Draw(t, "intKind") {
+	switch kind(t, "intKind", 9) {
 	case 0, 1, 2, 3, 4:
 		return int64(rapid.IntRange(-4, 6).Draw(t, "smallInt"))
 	case 5, 6:
@@ -45,7 +51,7 @@ var floatPool = []float64{0, math.Copysign(0, -1), 1, -1, 0.5, -0.5, 1.5, 2.5, 2
 
 // Float draws a float with special values over-represented.
 func Float(t *rapid.T) float64 {
-	switch rapid.IntRange(0, 9).Draw(t, "floatKind") {
+	switch kind(t, "floatKind", 9) {
 	case 0, 1, 2:
 		return pick(t, "poolFloat", floatPool)
 	case 3, 4, 5:
@@ -71,7 +77,7 @@ var plainSpellings = []string{"", "a", "A", "b", "B", "abc", "ABC", "Abc", "abd"
 
 // StringVal draws a string value and a class label.
 func StringVal(t *rapid.T) (Val, string) {
-	switch rapid.IntRange(0, 9).Draw(t, "strKind") {
+	switch kind(t, "strKind", 9) {
 	case 0, 1:
 		return val.Str(pad(t, pick(t, "intSp", intSpellings))), "str_int"
 	case 2, 3:
@@ -102,7 +108,7 @@ var timePool = []time.Time{
 
 // Value draws a value of any class; the second result is the class label.
 func Value(t *rapid.T) (Val, string) {
-	switch rapid.IntRange(0, 15).Draw(t, "valKind") {
+	switch kind(t, "valKind", 15) {
 	case 0, 1, 2:
 		return val.Int(Int(t)), "integer"
 	case 3, 4:
@@ -122,7 +128,7 @@ func Value(t *rapid.T) (Val, string) {
 
 // Numeric draws an Integer, Float or numeric-looking string.
 func Numeric(t *rapid.T) (Val, string) {
-	switch rapid.IntRange(0, 5).Draw(t, "numKind") {
+	switch kind(t, "numKind", 5) {
 	case 0, 1:
 		return val.Int(Int(t)), "integer"
 	case 2, 3:
